@@ -20,5 +20,11 @@ Example C01_example :
   sem_locked s = true.
 Proof. vm_compute. repeat split; reflexivity. Qed.
 
+(** Monitor soundness: the extracted monitor that judges the implementation's observation stream for C01 never rejects a stream of the model (no P-size hypothesis: the monitor switches its C01 clauses off once it has seen an accepted pool_size assignment). *)
+From TP Require PMonSound_C01 PObs PMon.
+Theorem mon_sound : forall c tr, clean (run c tr) -> PMon.ok_C01 c (PObs.observe c tr) = true.
+Proof. exact PMonSound_C01.mon_C01_sound. Qed.
+
 Print Assumptions C01.
 Print Assumptions C01_cfg.
+Print Assumptions mon_sound.
